@@ -25,6 +25,14 @@ type vhfsFS struct {
 	inject  map[int]int
 	wga     bool
 	log     [][]int // one key per call, same encoding as Refs/Cases.v call_key
+
+	// gate (vhfs_gated_test.go): the backend call matching gateKey parks after it took
+	// effect, signals gateEntered and waits for gateRelease; watchKey's first call signals watched.
+	gateKey     [3]int
+	gateEntered chan struct{}
+	gateRelease chan struct{}
+	watchKey    [2]int
+	watched     chan struct{}
 }
 
 type vhfsFile struct {
@@ -63,10 +71,30 @@ func (fs *vhfsFS) begin(key ...int) int {
 	idx := fs.calls
 	fs.calls++
 	fs.log = append(fs.log, key)
+	if fs.watched != nil && len(key) >= 2 && key[0] == fs.watchKey[0] && key[1] == fs.watchKey[1] {
+		close(fs.watched)
+		fs.watched = nil
+	}
 	if e, ok := fs.inject[idx]; ok {
 		return e
 	}
 	return 0
+}
+
+// park is called WITHOUT fs.mu held, after the call took effect.
+func (fs *vhfsFS) park(k0, k1, k2 int) {
+	fs.mu.Lock()
+	hit := fs.gateEntered != nil && fs.gateKey == [3]int{k0, k1, k2}
+	var ent, rel chan struct{}
+	if hit {
+		ent, rel = fs.gateEntered, fs.gateRelease
+		fs.gateEntered = nil
+	}
+	fs.mu.Unlock()
+	if hit {
+		close(ent)
+		<-rel
+	}
 }
 
 func (fs *vhfsFS) resolve(path []int) (int, bool) {
@@ -178,6 +206,13 @@ func (f *vhfsFile) qids(names []string, ino int, bad bool) []QID {
 }
 
 func (f *vhfsFile) Walk(names []string) ([]QID, File, error) {
+	q, nf, err := f.walkL(names)
+	nm, _ := vhfsOpt(names)
+	f.fs.park(1, f.id, nm)
+	return q, nf, err
+}
+
+func (f *vhfsFile) walkL(names []string) ([]QID, File, error) {
 	fs := f.fs
 	fs.mu.Lock()
 	defer fs.mu.Unlock()
@@ -197,6 +232,13 @@ func (f *vhfsFile) Walk(names []string) ([]QID, File, error) {
 }
 
 func (f *vhfsFile) WalkGetAttr(names []string) ([]QID, File, AttrMask, Attr, error) {
+	q, nf, m, a, err := f.walkGetAttrL(names)
+	nm, _ := vhfsOpt(names)
+	f.fs.park(2, f.id, nm)
+	return q, nf, m, a, err
+}
+
+func (f *vhfsFile) walkGetAttrL(names []string) ([]QID, File, AttrMask, Attr, error) {
 	fs := f.fs
 	fs.mu.Lock()
 	defer fs.mu.Unlock()
@@ -396,8 +438,10 @@ func (f *vhfsFile) Renamed(parent File, newName string) {
 func (f *vhfsFile) Close() error {
 	fs := f.fs
 	fs.mu.Lock()
-	defer fs.mu.Unlock()
-	if e := fs.begin(11, f.id); e != 0 && e != vhfsBadQ {
+	e := fs.begin(11, f.id)
+	fs.mu.Unlock()
+	fs.park(11, f.id, 0)
+	if e != 0 && e != vhfsBadQ {
 		return linux.Errno(e)
 	}
 	return nil
